@@ -3,7 +3,10 @@ package checks
 import (
 	"context"
 	"crypto/tls"
+	"errors"
 	"fmt"
+	"github.com/jeroenrinzema/psql-wire/pkg/buffer"
+	"github.com/jeroenrinzema/psql-wire/pkg/types"
 	"maps"
 	"sort"
 	"strings"
@@ -107,7 +110,32 @@ func (cfg c12config) start() *hs.Env {
 		opts = append(opts, wire.Version(cfg.Version))
 	}
 	if cfg.Auth {
-		opts = append(opts, wire.SessionAuthStrategy(wire.ClearTextPassword(c12validator)))
+		strategy := wire.ClearTextPassword(c12validator)
+		if len(cfg.Params)%2 == 1 {
+			// a strategy of the embedding program: it asks for the password itself, reads the answer and
+			// accepts (one write-then-read round trip, as any challenge-response method has)
+			strategy = func(ctx context.Context, w *buffer.Writer, r *buffer.Reader) (context.Context, error) {
+				w.Start(types.ServerAuth)
+				w.AddInt32(3)
+				if err := w.End(); err != nil {
+					return ctx, err
+				}
+				t, _, err := r.ReadTypedMsg()
+				if err != nil {
+					return ctx, err
+				}
+				if t != types.ClientPassword {
+					return ctx, errors.New("password message expected")
+				}
+				if _, err := r.GetString(); err != nil {
+					return ctx, err
+				}
+				w.Start(types.ServerAuth)
+				w.AddInt32(0)
+				return ctx, w.End()
+			}
+		}
+		opts = append(opts, wire.SessionAuthStrategy(strategy))
 	}
 	opts = append(opts, wire.CloseConn(c12closeConn), wire.TerminateConn(c12closeConn))
 	return hs.Start(c12parse, opts...)
